@@ -41,6 +41,12 @@ func freePort() (int, error) {
 }
 
 func newProdNode(c *harness.Case, kv storage.KvStorage, rm *harness.RecMetrics, track, etcdCompat bool, cacheSize int) (*prodNode, bool) {
+	return newProdNodeSec(c, kv, rm, track, etcdCompat, cacheSize, &endpoint.SecurityConfig{})
+}
+
+// newProdNodeSec: peerSec configures the peer port (the revision syncer and the etcd proxy of the other nodes are its
+// clients); the client port, which the harness talks to, stays without TLS.
+func newProdNodeSec(c *harness.Case, kv storage.KvStorage, rm *harness.RecMetrics, track, etcdCompat bool, cacheSize int, peerSec *endpoint.SecurityConfig) (*prodNode, bool) {
 	p1, e1 := freePort()
 	p2, e2 := freePort()
 	if e1 != nil || e2 != nil || p1 == p2 {
@@ -52,7 +58,7 @@ func newProdNode(c *harness.Case, kv storage.KvStorage, rm *harness.RecMetrics, 
 		Config: backend.Config{Identity: pn.peerAddr, EnableEtcdCompatibility: etcdCompat, WatchCacheSize: cacheSize}})
 	// security configs as cmd/option builds them without certificates (non-nil, empty = insecure)
 	ep := endpoint.NewEndpoint(pn.n.B, rm, &endpoint.Config{Port: p1, PeerPort: p2, EnableEtcdCompatibility: etcdCompat,
-		ClientSecurityConfig: &endpoint.SecurityConfig{}, PeerSecurityConfig: &endpoint.SecurityConfig{}})
+		ClientSecurityConfig: &endpoint.SecurityConfig{}, PeerSecurityConfig: peerSec})
 	ctx, cancel := context.WithCancel(context.Background())
 	pn.cancel = cancel
 	go func() { _ = ep.Run(ctx) }()
